@@ -904,6 +904,43 @@ impl Prop for C04Trunc {
     }
 }
 
+/// A record of opaque data sized so that the name after it is first written at offset `at`
+/// (its labels at `at`, `at`+5, `at`+10), for every `at` that puts one of them on 0x3ffd..=0x4003;
+/// then records that use the whole name, a longer name ending in it, and each of its suffixes,
+/// as owner and inside record data: the last offset a pointer can name is 0x3fff.
+pub fn pointer_limit_sweep() -> Vec<dns::Message> {
+    let label = |s: &str| s.as_bytes().to_vec();
+    let q: dns::Name = vec![label("q"), label("test")];
+    let mut v = vec![];
+    for at in (0x4000usize - 24)..=(0x4000 + 3) {
+        for shape in 0..2 {
+            let fresh: dns::Name = vec![label("host"), label("zone"), label("example")];
+            // header 12, question 8 + 4, first record: pointer 2 + 10 + pad
+            let pad = at - 36;
+            let rr = |name: dns::Name, rtype: u16, rdata: dns::RData| dns::Rr { name, rtype, class: 1, ttl: 60, rdata };
+            let mut m = dns::Message {
+                header: dns::Header { id: 0x1414, qr: true, rd: true, ra: true, ..Default::default() },
+                questions: vec![dns::Question { name: q.clone(), qtype: 65280, qclass: 1 }],
+                ..Default::default()
+            };
+            m.answer.push(rr(q.clone(), 65280, dns::RData::Raw(vec![0x5a; pad])));
+            if shape == 0 {
+                m.answer.push(rr(fresh.clone(), dns::T_A, dns::RData::Raw(vec![192, 0, 2, 1])));
+            } else {
+                // first written inside record data
+                m.answer.push(rr(q.clone(), dns::T_NS, dns::RData::Name(fresh.clone())));
+            }
+            m.answer.push(rr(fresh.clone(), dns::T_A, dns::RData::Raw(vec![192, 0, 2, 2])));
+            m.answer.push(rr([vec![label("www")], fresh.clone()].concat(), dns::T_A, dns::RData::Raw(vec![192, 0, 2, 3])));
+            m.authority.push(rr(fresh[1..].to_vec(), dns::T_NS, dns::RData::Name([vec![label("ns")], fresh[1..].to_vec()].concat())));
+            m.authority.push(rr(fresh[2..].to_vec(), dns::T_MX, dns::RData::PrefName(10, [vec![label("mail")], fresh.clone()].concat())));
+            m.additional.push(rr([vec![label("other")], fresh[2..].to_vec()].concat(), dns::T_CNAME, dns::RData::Name(fresh.clone())));
+            v.push(m);
+        }
+    }
+    v
+}
+
 pub fn run_c14_func(ctx: &Ctx) {
     // the committed inputs first (every past failure of this property and of C05 on the DNS
     // decoder, minimised or as found by libFuzzer)
@@ -931,6 +968,11 @@ pub fn run_c14_func(ctx: &Ctx) {
         max_records: 30,
         max_raw: 65535,
     };
+    // names first written at every offset around 0x4000 and used again afterwards
+    run_list(ctx, &C14Structured, pointer_limit_sweep());
+    if !ctx.violations.lock().unwrap().is_empty() {
+        return;
+    }
     let n = ctx.tier.pick(24_000u64, 400_000u64);
     run_prop(ctx, &C14Structured, || message_strategy(small), n, workers());
     run_prop(ctx, &C14Structured, || message_strategy(big), ctx.tier.pick(3_000, 60_000), workers());
